@@ -18,6 +18,12 @@
 // the stack keys its approval maps by SKI.  A history that uses an incarnation while another one of the
 // slot is connected, or repeats a msgCounter on one SKI, is not realisable (observation 96).
 // A panic of a call into the stack is recovered and becomes the observation 16 k (k as for 15).
+// Busy callbacks: field 5 of an arrival is rank + 1000 * (bit set of busy callbacks); the model ignores the
+// field.  The callback function of a busy (write, callback) pair records the presentation and then does
+// not return: it waits until the schedule gives that pair its verdict - Lookup and Commit then run on the
+// callback's own goroutine, inside the callback function - or until Close (a silent callback that never
+// returns).  Every callback is started on a goroutine of its own by the stack, so the presentation to the
+// other callbacks, their verdicts and the timeout are independent of it.
 // The approval callbacks only record that they were called; the verdicts are given by the
 // schedule: `Lookup` starts ApproveOrDenyWrite on a goroutine of its own, which the hook
 // "ApproveOrDenyWrite.lookedup" (build tag verif) parks between the lookup of the pending
@@ -88,6 +94,7 @@ const (
 	valueBase    = 1000000                // value of write (p, c) = p*valueBase + c
 	deniedErr    = 7
 	maxRetries   = 5
+	busyBase     = 1000 // field 5 of an arrival = rank of its timeout + busyBase * (bit set of busy callbacks)
 )
 
 // impatient is set by the first watchdog expiry of the process: a tree on which a call into the
@@ -216,11 +223,12 @@ type world struct {
 	verd    map[vid]bool
 	gone    map[int64]bool
 	threads map[vid]*vthread
-	last    *wid            // the write applied last according to the events
-	bound   int64           // the peer holding the binding of the server feature (-1 none)
-	stuck   bool            // a call into this world's stack never returned: nothing more is asked of it
-	byKey   map[wid]wid     // (slot, msgCounter) -> write of the model
-	live    map[int64]int64 // slot -> incarnation (model peer) whose connection is up
+	last    *wid                // the write applied last according to the events
+	bound   int64               // the peer holding the binding of the server feature (-1 none)
+	stuck   bool                // a call into this world's stack never returned: nothing more is asked of it
+	bodies  map[vid]chan func() // busy callbacks: the body of callback cb for write w waits here for its work
+	byKey   map[wid]wid         // (slot, msgCounter) -> write of the model
+	live    map[int64]int64     // slot -> incarnation (model peer) whose connection is up
 }
 
 var fn = model.FunctionTypeLoadControlLimitListData
@@ -257,7 +265,7 @@ func newWorld(slot time.Duration) *world {
 	instances++
 	inst := instances
 	statsMu.Unlock()
-	m := &world{inst: inst, slot: slot, byKey: map[wid]wid{}, live: map[int64]int64{}, peers: map[int64]*peer{}, timers: map[wid]*timerRec{}, msgs: map[wid]*api.Message{},
+	m := &world{inst: inst, slot: slot, bodies: map[vid]chan func(){}, byKey: map[wid]wid{}, live: map[int64]int64{}, peers: map[int64]*peer{}, timers: map[wid]*timerRec{}, msgs: map[wid]*api.Message{},
 		bound: -1, ack: map[wid]bool{}, arrived: map[wid]bool{}, verd: map[vid]bool{}, gone: map[int64]bool{}, threads: map[vid]*vthread{}}
 	m.dev = spine.NewDeviceLocal("brand", "model", "serial", "code", "d0", model.DeviceTypeTypeEnergyManagementSystem, model.NetworkManagementFeatureSetTypeSmart)
 	ent := spine.NewEntityLocal(m.dev, model.EntityTypeTypeCEM, []model.AddressEntityType{1}, 0)
@@ -486,6 +494,12 @@ func (m *world) close() {
 		}
 	}
 	m.mu.Lock()
+	for _, body := range m.bodies {
+		close(body) // a busy callback that is still waiting (it stayed silent) returns now
+	}
+	m.bodies = map[vid]chan func(){}
+	m.mu.Unlock()
+	m.mu.Lock()
 	for _, rec := range m.timers {
 		select {
 		case <-rec.release:
@@ -638,11 +652,19 @@ func (m *world) exec(op hx.Zs) (obs []hx.Zs, mistimed bool) {
 				}
 			}
 			m.mu.Lock()
-			defer m.mu.Unlock()
 			if m.msgs[wid{p, c}] == nil {
 				m.msgs[wid{p, c}] = msg
 			}
 			m.events = append(m.events, hx.Zs{1, cb, p, c})
+			body := m.bodies[vid{wid{p, c}, cb}]
+			m.mu.Unlock()
+			if body != nil {
+				// a busy callback: it does not return before it has given its verdict (the Lookup / Commit of
+				// this (write, callback) run on this goroutine, inside the callback) or the history is over
+				if work := <-body; work != nil {
+					work()
+				}
+			}
 		})
 		return m.collect(), false
 	case 1: // Arrive
@@ -674,6 +696,15 @@ func (m *world) exec(op hx.Zs) (obs []hx.Zs, mistimed bool) {
 		m.mu.Unlock()
 		m.arrived[w] = true
 		m.ack[w] = op[3] != 0
+		busy := op[4] / busyBase // set of callbacks that are busy for this write
+		op = hx.Zs{op[0], op[1], op[2], op[3], op[4] % busyBase}
+		m.mu.Lock()
+		for cb := int64(0); cb < int64(m.ncb) && cb < 32; cb++ {
+			if busy&(1<<uint(cb)) != 0 {
+				m.bodies[vid{w, cb}] = make(chan func(), 1)
+			}
+		}
+		m.mu.Unlock()
 		rec := &timerRec{slot: op[4], parked: make(chan struct{}), release: make(chan struct{}), done: make(chan struct{})}
 		timeout := 10 * time.Minute
 		if op[4] > 0 {
@@ -751,13 +782,21 @@ func (m *world) exec(op hx.Zs) (obs []hx.Zs, mistimed bool) {
 		m.mu.Lock()
 		m.cur = th
 		m.mu.Unlock()
-		go func() {
+		call := func() {
 			defer func() {
 				th.pnc = recover()
 				close(th.done)
 			}()
 			m.feat.ApproveOrDenyWrite(msg, e)
-		}()
+		}
+		m.mu.Lock()
+		body := m.bodies[v]
+		m.mu.Unlock()
+		if body != nil {
+			body <- call // the busy callback gives its verdict from inside the callback function
+		} else {
+			go call()
+		}
 		select {
 		case <-th.parked:
 			th.state = 1
@@ -1152,7 +1191,7 @@ func assignSlots(h []hx.Zs) []hx.Zs {
 			w := wid{o[1], o[2]}
 			if !seen[w] {
 				seen[w] = true
-				h[i] = hx.Zs{1, o[1], o[2], o[3], rank[w]}
+				h[i] = hx.Zs{1, o[1], o[2], o[3], o[4]/busyBase*busyBase + rank[w]}
 			}
 		}
 	}
@@ -1185,7 +1224,17 @@ func gen(r *hx.Rng, tier string, i int) []hx.Zs {
 	mkWrite := func(p int64) *seqT {
 		ctr[p%nSlots] += int64(r.Range(1, 3))
 		c := ctr[p%nSlots]
-		arrive := &seqT{ops: []hx.Zs{{1, p, c, int64(r.Intn(2)), 0}}}
+		// in a third of the writes some callbacks are busy: their callback function does not return before it
+		// has given its verdict (or the history is over), while the others are presented the write and decide
+		var busy int64
+		if r.Chance(1, 3) {
+			for cb := 0; cb < ncb; cb++ {
+				if r.Chance(1, 2) {
+					busy |= 1 << uint(cb)
+				}
+			}
+		}
+		arrive := &seqT{ops: []hx.Zs{{1, p, c, int64(r.Intn(2)), busy * busyBase}}}
 		for cb := 0; cb < ncb; cb++ {
 			var x int
 			switch profile {
@@ -1311,6 +1360,14 @@ func fixed(tier string) [][]hx.Zs {
 			{2, 5, 2, 0, 1}, {3, 5, 2, 0}, {2, 5, 2, 1, 1}, {3, 5, 2, 1}, {4, 5, 2}, {5, 5, 2}, {7}},
 		// two reconnects of one SKI (RemoveRemoteDeviceConnection: 2 -> 6 -> 10), a write each, the second times out
 		[]hx.Zs{{0}, {1, 2, 1, 0, 0}, {6, 2}, {1, 6, 2, 1, 0}, {6, 6}, {1, 10, 3, 1, 0}, {4, 10, 3}, {5, 10, 3}, {4, 6, 2}, {5, 6, 2}, {7}},
+	)
+	hs = append(hs,
+		// the first callback is busy (silent, does not return): the second is still presented the write and its denial concludes it
+		[]hx.Zs{{0}, {0}, {1, 0, 1, 1, 1 * busyBase}, {2, 0, 1, 1, 0}, {3, 0, 1, 1}, {4, 0, 1}, {5, 0, 1}, {7}},
+		// all three callbacks are busy and approve one after the other from inside their callback functions, well before the timeout
+		[]hx.Zs{{0}, {0}, {0}, {1, 1, 1, 1, 7 * busyBase}, {2, 1, 1, 2, 1}, {3, 1, 1, 2}, {2, 1, 1, 0, 1}, {2, 1, 1, 1, 1}, {3, 1, 1, 1}, {3, 1, 1, 0}, {4, 1, 1}, {5, 1, 1}, {7}},
+		// a busy first callback on one write does not hold up the presentation of the next write
+		[]hx.Zs{{0}, {0}, {1, 0, 1, 0, 1 * busyBase}, {1, 0, 2, 1, 0}, {2, 0, 2, 0, 1}, {3, 0, 2, 0}, {2, 0, 2, 1, 1}, {3, 0, 2, 1}, {2, 0, 1, 1, 1}, {3, 0, 1, 1}, {4, 0, 1}, {5, 0, 1}, {7}},
 	)
 	for i := range hs {
 		hs[i] = assignSlots(hs[i])
